@@ -69,7 +69,10 @@ NearCalls == {<<"add_node", n>> : n \in NodeIds}
 
 Calls == CASE Profile = "cache" -> SingleMut \cup ReadCalls \cup ViewCalls \cup BulkCalls \cup FewPaths
            [] Profile = "near" -> NearCalls
-           [] Profile = "ind" -> SingleMut \cup ReadCalls \cup BulkCalls \cup FewPaths
+           [] Profile = "ind" -> SingleMut \cup ReadCalls
+                                 \cup {<<"add_path", <<u, l, v>>, o, d>> : u \in NodeIds, l \in LinkIds, v \in NodeIds, o \in {"", "o1"}, d \in {"", "d1"}}
+                                 \cup {<<"add_links", <<<<u, "l1", v>>, <<v, "l2", u>>>>>> : u \in NodeIds, v \in NodeIds}
+                                 \cup {<<"add_nodes", <<u, v>>>> : u \in NodeIds, v \in NodeIds}
            [] Profile = "valid" -> SingleMut \cup ValidPaths
            [] Profile = "path"  -> AllPaths \cup {<<"add_link", "n1", "l1", "n2">>, <<"add_origin", "o1", "n1">>, <<"add_node", "n2">>}
 
@@ -83,18 +86,19 @@ Perms(A) == IF A = {} THEN {<<>>} ELSE UNION {{<<a>> \o p : p \in Perms(A \ {a})
 RECURSIVE InjSeqs(_, _)
 InjSeqs(A, k) == IF k = 0 THEN {<<>>} ELSE InjSeqs(A, k - 1) \cup {Append(p, a) : p \in {q \in InjSeqs(A, k - 1) : Len(q) = k - 1}, a \in A}
 Distinct(p) == \A i, j \in DOMAIN p : p[i] = p[j] => i = j
-IndGraphs ==
+\* (operators with a parameter: TLC evaluates zero-arity constant definitions eagerly at start-up, for every profile)
+IndGraphs(dummy) ==
   UNION {UNION {{[nodes |-> ns, edges |-> es, link |-> lk, orig |-> og, dest |-> dg, cache |-> [k \in Lookups |-> Absent]] :
                    lk \in [Range(es) -> LinkIds],
                    og \in UNION {[A -> OrigIds] : A \in SUBSET Range(ns)},
                    dg \in UNION {[A -> DestIds] : A \in SUBSET Range(ns)}}
                 : es \in {p \in InjSeqs(Range(ns) \X Range(ns), MaxPath) : Distinct(p)}}
          : ns \in UNION {Perms(A) : A \in SUBSET NodeIds}}
-IndStates == {[g EXCEPT !.cache = [k \in Lookups |-> IF k \in M THEN Has(Recompute(g, k)) ELSE Absent]] :
-                g \in IndGraphs, M \in SUBSET Lookups}
+IndStates(dummy) == {[g EXCEPT !.cache = [k \in Lookups |-> IF k \in M THEN Has(Recompute(g, k)) ELSE Absent]] :
+                g \in IndGraphs(dummy), M \in SUBSET Lookups}
 
 Init == /\ res = <<"init">> /\ depth = 0
-        /\ IF Profile = "ind" THEN hist = <<>> /\ S \in IndStates ELSE
+        /\ IF Profile = "ind" THEN hist = <<>> /\ S \in IndStates(0) ELSE
            IF Profile = "near"
            THEN \E i \in DOMAIN Shapes : hist = BaseCalls(Shapes[i]) /\ S = FoldCalls(EmptyState, hist)
            ELSE S = EmptyState /\ hist = <<>>
